@@ -145,7 +145,10 @@ func genCross(transports []string) func(t *rapid.T) Cross {
 			c.Junk = rapid.SampledFrom([]int{1, 2, 2, 3, 5}).Draw(t, "junkMod")
 			nk := rapid.IntRange(1, 4).Draw(t, "nJunkKinds")
 			for i := 0; i < nk; i++ {
-				c.JunkKinds = append(c.JunkKinds, rapid.SampledFrom([]int{0, 1, 2, 3, 4, 5, 6, 7, 8, 9, 10, 11, 11, 5, junkResponse, junkResponse}).Draw(t, "junkKind"))
+				c.JunkKinds = append(c.JunkKinds, rapid.SampledFrom([]int{junkResponse, 0, 1, 2, 3, 4, 5, 6, 7, 8, 9, 10, 11, 11, 5, junkResponse, junkResponse, junkResponse}).Draw(t, "junkKind"))
+			}
+			if !c.Tsig && rapid.Bool().Draw(t, "junkWithResponse") {
+				c.JunkKinds[0] = junkResponse // (TSIG rounds accept everything: there the kind stands for 11 octets)
 			}
 		}
 		return c
